@@ -81,6 +81,8 @@ func main() {
 		os.Exit(cmdDump(o, rest[0]))
 	case "list":
 		os.Exit(cmdList(o))
+	case "sweep":
+		os.Exit(cmdSweep(o, rest))
 	case "sites":
 		if len(rest) < 1 {
 			usage()
@@ -281,6 +283,74 @@ func cmdCheck(o opts, prop, tier string) int {
 	os.RemoveAll(qdir)
 	solveAll(sel, qdir, timeout, tier == "thorough", 5)
 	return report(o, e, prop, tier, seed, sel, frames, engineErrs, time.Since(t0).Seconds(), timeout)
+}
+
+// cmdSweep: developer view of the C20 sweep - safety obligations of the named functions (or of every function under
+// contract), fast solving, failures grouped by function.
+func cmdSweep(o opts, pats []string) int {
+	os.Setenv("GOVC_FAST", "1")
+	e := mustLoad(o)
+	var names []string
+	for n, fn := range e.fnByName {
+		if fn == nil || len(fn.Blocks) == 0 {
+			continue
+		}
+		c := e.db.Contracts[n]
+		if len(pats) == 0 {
+			if c == nil || (c.Assumed && !c.Flags["partial"]) || c.Flags["nosweep"] {
+				continue
+			}
+			names = append(names, n)
+			continue
+		}
+		for _, p := range pats {
+			if strings.Contains(n, p) {
+				names = append(names, n)
+				break
+			}
+		}
+	}
+	sort.Strings(names)
+	to := 3
+	if o.timeout > 0 {
+		to = o.timeout
+	}
+	total, bad := 0, 0
+	for _, n := range names {
+		f, err := e.verifyFunction(e.fnByName[n], true)
+		if err != nil {
+			fmt.Printf("%-60s ENGINE ERROR %v\n", n, err)
+			continue
+		}
+		var sel []*Obligation
+		for _, ob := range f.obls {
+			for _, p := range ob.Props {
+				if p == "C20" {
+					sel = append(sel, ob)
+					break
+				}
+			}
+		}
+		dir := filepath.Join(os.TempDir(), "govc-sweep", sanitizeFile(n))
+		os.RemoveAll(dir)
+		solveAll(sel, dir, to, false, 5)
+		nb := 0
+		for _, ob := range sel {
+			if ob.Status != "discharged" {
+				nb++
+			}
+		}
+		total += len(sel)
+		bad += nb
+		fmt.Printf("%-70s %4d obligations %3d open\n", n, len(sel), nb)
+		for _, ob := range sel {
+			if ob.Status != "discharged" {
+				fmt.Printf("      %-9s %s  %s\n", ob.Status, strings.TrimPrefix(ob.ID, n), ob.Pos)
+			}
+		}
+	}
+	fmt.Printf("TOTAL %d obligations, %d open\n", total, bad)
+	return 0
 }
 
 func contractServes(c *Contract, prop string) bool {
